@@ -88,6 +88,49 @@ def check_extrema_types(case):
     return check_extrema(case)
 
 
+def _gen_mutation(ctx):
+    rng = ctx.rng("c15.mut")
+    n = ctx.pick(40, 800)
+    for spin in (False, True):
+        for t in (SPIN_TYPES if spin else BOOL_TYPES):
+            deg = 2 if t.startswith("Q") else 3
+            labels = labels_for(t, 3)
+            yield {"spin": spin, "type": t, "terms": {(): 3}, "edits": [[(), -6]]}
+            yield {"spin": spin, "type": t, "terms": {(labels[0],): 1, (): 9}, "edits": [[(labels[0],), 11], [(), -2]]}
+            for terms in gen_models(rng, n // 4, labels, deg, COEFS, max_terms=4, min_terms=1):
+                ks = list(terms)
+                edits = [[rng.choice(ks), rng.choice([10, -7, 0.5, 25])] for _ in range(rng.choice([1, 2]))]
+                yield {"spin": spin, "type": t, "terms": terms, "edits": edits}
+
+
+@clause("C15.extrema_after_mutation", "C15", gen=_gen_mutation, nontrivial=lambda c: any(k for k in c["terms"]))
+def check_extrema_after_mutation(case):
+    """the enclosure holds for the model *as it is when the function is called*: extrema are queried, a stored
+    coefficient (or the offset) of the same model object is overwritten in place - the number of terms stays the
+    same - and the extrema are queried again; each answer must enclose the true extrema of the model at that
+    moment (and equal the constant for a constant model). Non-trivial: the model has a non-constant term."""
+    q = qv()
+    spin = case["spin"]
+    t = case["type"]
+    deg2 = t.startswith("Q")
+    fn = getattr(q.utils, "approximate_%s_extrema" % (("quso" if spin else "qubo") if deg2 else ("puso" if spin else "pubo")))
+    M = cls_of(t)(case["terms"])
+    steps = [None] + [tuple(e) for e in case["edits"]]
+    for e in steps:
+        if e is not None:
+            M[tuple(e[0])] = e[1]
+        cur = {k: v for k, v in dict(M).items()}
+        lo, hi = fn(M)
+        vs = variables_of(cur)
+        vals = [peval(cur, x) for x in assignments(vs, spin)]
+        if lo > min(vals) + 1e-9 or hi < max(vals) - 1e-9:
+            return Fail("after edits up to %r: enclosure (%r, %r) does not contain [%r, %r] of %r"
+                        % (e, lo, hi, min(vals), max(vals), cur), key="stale-enclosure")
+        if all(not k or not v for k, v in cur.items()) and not (lo == hi == cur.get((), 0)):
+            return Fail("after edits up to %r: constant model %r gives (%r, %r)" % (e, cur, lo, hi), key="stale-constant")
+    return None
+
+
 def _gen_trange(ctx):
     rng = ctx.rng("c15t")
     probs = [(0.5, 0.01), (0.9, 0.9), (0.3, 0.0), (0.0, 0.0), (0.99, 0.5), (0.5, 0.5)]
